@@ -48,5 +48,5 @@ SPEC = PropSpec(
         "interpreter of DESIGN 3.R4 not built); run-time address-book index arithmetic."
     ),
     run=run,
-    floors={"R4l": 4, "R12b": 7, "R1a": 38, "R1b": 38, "R1c": 170, "R1d": 10, "R4": 8, "R4b": 25, "R8": 12, "R11a": 12, "R11b": 12, "R11c": 10},
+    floors={"R4l": 2, "R12b": 7, "R1a": 38, "R1b": 38, "R1c": 170, "R1d": 10, "R4": 8, "R4b": 25, "R8": 12, "R11a": 12, "R11b": 12, "R11c": 10},
 )
